@@ -1849,6 +1849,23 @@ func (bc *Blockchain) AddBlock(block *block.Block) error {
 		if expectedH != block.Hash() {
 			return fmt.Errorf("invalid block: hash mismatch: expected %s, got %s", expectedH.StringLE(), block.Hash().StringLE())
 		}
+		// The witness is not covered by the hash, so unless it's the one
+		// that was verified along with the known header it must be checked.
+		if !bc.config.SkipBlockVerification {
+			knownHeader, err := bc.GetHeader(expectedH)
+			if err != nil {
+				return fmt.Errorf("known header %d (%s) was not found: %w", block.Index, expectedH.StringLE(), err)
+			}
+			if !witnessesEqual(knownHeader.Script, block.Script) {
+				prevHeader, err := bc.GetHeader(block.PrevHash)
+				if err != nil {
+					return fmt.Errorf("previous header %d (%s) was not found: %w", block.Index-1, block.PrevHash.StringLE(), err)
+				}
+				if err = bc.verifyHeaderWitnesses(&block.Header, prevHeader); err != nil {
+					return err
+				}
+			}
+		}
 	}
 	if !bc.config.SkipBlockVerification {
 		merkle := block.ComputeMerkleRoot()
@@ -1878,6 +1895,11 @@ func (bc *Blockchain) AddBlock(block *block.Block) error {
 		}
 	}
 	return bc.storeBlock(block, mp)
+}
+
+// witnessesEqual tells whether two witnesses are the same byte for byte.
+func witnessesEqual(a, b transaction.Witness) bool {
+	return bytes.Equal(a.InvocationScript, b.InvocationScript) && bytes.Equal(a.VerificationScript, b.VerificationScript)
 }
 
 // AddHeaders processes the given headers and add them to the
